@@ -64,7 +64,7 @@ fn run_size(input: &Value) -> Value {
     let len = input["len"].as_u64().unwrap_or(100) as usize;
     let optlen = input["optlen"].as_u64().unwrap_or(0) as usize;
     let id = 0x4321u16;
-    let req_bytes = mk_query(id, qlen, edns, false);
+    let req_bytes = mk_query_opts(id, qlen, edns, false, input["ropts"].as_str().unwrap_or("none"));
     let before = panics();
     let out = rt().block_on(async move {
         let svc = ScriptSvc::default();
@@ -246,6 +246,7 @@ fn run_conn(input: &Value) -> Value {
                     }
                 }
                 "halftick" => tokio::time::advance(HALF).await,
+                "accepterr" => listener.accept_error(),
                 "abort" => {
                     if let Some(h) = ios.get(&c) {
                         h.abort();
